@@ -12,7 +12,7 @@
                                                               an upper bound of the number of
                                                               tokens in any stream cut from it)
 
-   If one of the wrapped attributes (or ``pos``) is gone the monitor raises
+   If one of the wrapped (public) methods/properties is gone the monitor raises
    ``HarnessBindingLost`` -- the check then fails loudly instead of passing vacuously.
 
 2. ``case_alarm`` -- a per-case CPU-time BACKSTOP (``setitimer(ITIMER_PROF)``) for code that
@@ -101,15 +101,19 @@ def _trip(kind: str) -> None:
     raise StepBudgetExceeded(kind, detail)
 
 
-def _wrap_advancer(orig: Callable[[Any], Any]) -> Callable[[Any], Any]:
+def _wrap_advancer(orig: Callable[[Any], Any], current_fget: Callable[[Any], Any]) -> Callable[[Any], Any]:
+    """Progress is observed through the stream's own ``current`` accessor (the token the stream points at is a
+    different object after a real advance), not through any private position attribute, so that internal
+    reorganisations of TokenStream do not break the monitor."""
+
     def advancer(self: Any) -> Any:
         st = _ST
         if not st.active:
             return orig(self)
-        before = self.pos
+        before = current_fget(self)
         tok = orig(self)
         st.calls += 1
-        if self.pos > before:
+        if current_fget(self) is not before:
             if st.stall > st.max_stall:
                 st.max_stall = st.stall
             st.stall = 0
@@ -157,21 +161,18 @@ def install_stream_monitor() -> None:
     for name in ACCESSORS:
         if not isinstance(d.get(name), property):
             raise HarnessBindingLost(f"harness binding lost: TokenStream.{name} is not a property any more")
-    # the position attribute
+    # progress probe: after a real advance the stream must point at a different token object
     from liquid.token import Token
 
+    cur = d["current"].fget
     probe = TokenStream(iter([Token("x", "x", 0, "x"), Token("y", "y", 1, "xy")]))
-    try:
-        p0 = probe.pos
-        probe.next_token()
-        p1 = probe.pos
-    except AttributeError as e:
-        raise HarnessBindingLost(f"harness binding lost: TokenStream.pos ({e})") from e
-    if not (isinstance(p0, int) and p1 == p0 + 1):
-        raise HarnessBindingLost("harness binding lost: TokenStream.pos does not count consumed tokens")
+    t0 = cur(probe)
+    probe.next_token()
+    if cur(probe) is t0:
+        raise HarnessBindingLost("harness binding lost: TokenStream.current does not change after next_token()")
     for name in ADVANCERS:
         _ORIG[name] = d[name]
-        setattr(TokenStream, name, _wrap_advancer(d[name]))
+        setattr(TokenStream, name, _wrap_advancer(d[name], cur))
     for name in ACCESSORS:
         _ORIG[name] = d[name]
         setattr(TokenStream, name, _wrap_accessor(d[name]))
